@@ -70,7 +70,7 @@ def check_exact(case, ctx):
         _check_exact(case, ctx)
     except Violation as v:
         if v.aid in ('exact_weight', 'weight_range', 'certain_pixel',
-                     'sum_vs_area'):
+                     'sum_vs_area', 'nonfinite_weight'):
             shape = _shape_eff(case)
             ap = make_aperture(case['shape'], (case['x'], case['y']),
                                case.get('theta_q', False))
@@ -386,7 +386,10 @@ def check_bbox(case, ctx):
                 if pen > 1e-4 * min(1.0, min(dx, dy)):
                     raise Violation('bbox_not_minimal',
                                     f'{name} of the exact mask is empty '
-                                    f'(penetration {pen:.3g})', shape=shape)
+                                    f'(penetration {pen:.3g})', shape=shape,
+                                    kind=shape['kind'],
+                                    degenerate_contact=G.degenerate_contact(
+                                        shape, x0, y0))
     # BoundingBox.from_float / algebra against integer set semantics
     b2 = BoundingBox.from_float(x0 - dx, x0 + dx, y0 - dy, y0 + dy)
     require(b2.ixmin in _amb_round(x0 - dx + 0.5, tolx), 'from_float')
